@@ -47,7 +47,12 @@ def _skip_value(val) -> bool:
     return False
 
 
-EXTRA_SLOTS: list = []          # (owner, name) registered by the workload: user-side module state
+import warnings as _warnings
+
+# (owner, name) registered explicitly: user-side module state (by the workload) and the process-global state of the
+# standard library that the package can reach - the list of warning filters is per process, and neither fork-shared
+# nor thread-safe
+EXTRA_SLOTS: list = [(_warnings, "filters")]
 
 
 def register(owner, name):
@@ -108,5 +113,7 @@ def install(slots, values):
         try:
             if getattr(o, n, None) is not v:
                 setattr(o, n, v)
+                if o is _warnings:
+                    _warnings._filters_mutated()
         except Exception:
             pass
